@@ -1,6 +1,7 @@
 //! Operator-contract drivers (DESIGN.md §7.4 C28/C29/C30, §7.2 C53/C50).
 //! `vcontract record --in cases.ndjson --out runs.ndjson` plans every case, wraps every node of the
 //! optimised physical plan in a transparent observer, executes, and writes one event log per run.
+mod c50;
 mod facts;
 mod observer;
 mod record;
@@ -11,6 +12,7 @@ fn main() {
     match a.get(1).map(|s| s.as_str()).unwrap_or("") {
         "record" => record::main(),
         "spill" => spill::main(),
+        "c50" => c50::main(),
         _ => {
             eprintln!("usage: vcontract record --in cases.ndjson --out runs.ndjson");
             std::process::exit(2);
